@@ -50,6 +50,11 @@ RULE = ("a case is a configuration: class (plain | external interference), "
         "built and queried first.  Non-trivial = some user has >= 2 streams, or a path "
         "loss is set, or there is external interference with pe > 0; "
         "distinct = SHA-1 of the case description")
+RULE += (" Added after the white-box review: "
+         "optionally path loss and noise x 1e-14..1e-6, receive "
+         "filters x 1e-8..1e-5, and everything asked again after a "
+         "later set_pathloss ")
+
 ASSUMPTIONS = [
     "K >= 2 and generic (seeded complex Gaussian) precoders/filters: the "
     "interference-plus-noise power of every stream is > 0, so no SINR is "
